@@ -1,5 +1,6 @@
 import VrlModel.KindWire
 import VrlModel.KindSpec
+import VrlModel.C19
 
 namespace Driver.C19
 open Wire KindWire
@@ -34,6 +35,100 @@ def colinfo (k : Kind) : String :=
     | none => "_"
     | some c => emptyStr c.isEmpty ++ " " ++ b c.isAny ++ " " ++ b c.isUnknownExact
   a ++ " / " ++ o
+
+def optValueOfString (s : String) : Option (Option Value) :=
+  if s == "none" then some none else (valueOfString s).map some
+
+/-- `panic` or a kind -/
+def okindOfString (s : String) : Option (Option Kind) :=
+  if s == "panic" then some none else (kindOfString s).map some
+
+def okOf (s : String) : Option Bool :=
+  if s == "ok" then some true else if s == "err" then some false else none
+
+def verdict (ok : Bool) (clause cls : String) : String :=
+  if ok then "holds" else "fails " ++ clause ++ ":" ++ cls
+
+/-- Spec oracle on the implementation's observations. -/
+def handleOracle (op : String) (args : List String) : Option String :=
+  match op, args with
+  | "o.c19.of", [v, "|", kv, selfSup] => do
+    let v ← valueOfString v
+    let kv ← kindOfString kv
+    let s ← okOf selfSup
+    pure (if !Spec.mem v kv then "fails of:-" else if !s then "fails of_self_superset:-" else "holds")
+  | "o.c19.at", [v, k, p, "|", g, atK, getK] => do
+    let v ← valueOfString v
+    let k ← kindOfString k
+    let p ← pathOfString p
+    let g ← optValueOfString g
+    let atK ← okindOfString atK
+    let getK ← okindOfString getK
+    match atK, getK with
+    | some atK, some getK =>
+      pure (if !C19.atLaw v k g atK then "fails at:" ++ (C19.atClass k p).name
+        else if !C19.getLaw v k g getK then "fails at:" ++ (C19.atClass k p).name else "holds")
+    | _, _ => pure (if Spec.mem v k then "fails at:" ++ (C19.panicClassAt k p).name else "holds")
+  | "o.c19.insert", [v, k, p, x, xk, "|", v', k'] => do
+    let v ← valueOfString v
+    let k ← kindOfString k
+    let p ← pathOfString p
+    let x ← valueOfString x
+    let xk ← kindOfString xk
+    if v' == "panic" then pure "holds" else
+    let v' ← valueOfString v'
+    let k' ← okindOfString k'
+    match k' with
+    | some k' => pure (verdict (C19.insertLaw v k x xk v' k') "insert" (C19.insertClass k p xk).name)
+    | none => pure (verdict (!(Spec.mem v k && Spec.mem x xk)) "insert" "D_panic")
+  | "o.c19.remove", [v, k, p, c, "|", removed, v', k', r] => do
+    let v ← valueOfString v
+    let k ← kindOfString k
+    let p ← pathOfString p
+    let c ← boolOf c
+    let removed ← optValueOfString removed
+    let v' ← valueOfString v'
+    let k' ← okindOfString k'
+    let r ← okindOfString r
+    match k', r with
+    | some k', some r =>
+      pure (if !C19.removeLaw v k v' k' then "fails remove:" ++ (C19.removeClass k p c).name
+        else if !C19.removedLaw v k removed r then "fails at:" ++ (C19.atClass k p).name else "holds")
+    | _, _ => pure (verdict (!Spec.mem v k) "remove" (C19.panicClassRemove k p c).name)
+  | "o.c19.union", [v, a, b, "|", u] => do
+    let v ← valueOfString v
+    let a ← kindOfString a
+    let b ← kindOfString b
+    let u ← kindOfString u
+    pure (verdict (C19.unionLaw v a b u) "union" (C19.unionClass a b).name)
+  | "o.c19.merge", [va, ka, vb, kb, "|", m, mk] => do
+    let va ← valueOfString va
+    let ka ← kindOfString ka
+    let vb ← valueOfString vb
+    let kb ← kindOfString kb
+    if m == "err" then pure "holds" else
+    let m ← valueOfString m
+    let mk ← kindOfString mk
+    pure (verdict (C19.mergeLaw va ka vb kb m mk) "merge" (C19.mergeClass ka kb).name)
+  | "o.c19.superset", [v, a, b, "|", res] => do
+    let v ← valueOfString v
+    let a ← kindOfString a
+    let b ← kindOfString b
+    let res ← okOf res
+    pure (verdict (C19.supersetLaw v a b res) "superset" "-")
+  | "o.c19.memsup", [v, k, "|", res] => do
+    let v ← valueOfString v
+    let k ← kindOfString k
+    let res ← okOf res
+    pure (verdict (C19.memsupLaw v k res) "memsup" (C19.memsupClass k res).name)
+  | "o.c19.canon", [v, k, "|", kc, eqSelf] => do
+    let v ← valueOfString v
+    let k ← kindOfString k
+    let kc ← kindOfString kc
+    pure (if !C19.canonLaw v k kc then "fails canon:-"
+      else if !C19.canonRevLaw v k kc then "fails canon_rev:" ++ (C19.canonClass k).name
+      else if eqSelf != "1" then "fails canon_eq:" ++ (C19.canonClass k).name else "holds")
+  | _, _ => none
 
 def handle (op : String) (args : List String) : Option String :=
   match op, args with
@@ -118,6 +213,6 @@ def handle (op : String) (args : List String) : Option String :=
         | .none => .none
         | .some c => .some c.anonymize
       pure (showKind (.mk p (f a) (f o)))
-  | _, _ => none
+  | _, _ => handleOracle op args
 
 end Driver.C19
